@@ -25,6 +25,8 @@ import (
 type Config struct {
 	Chunking      bool // tape-chosen read chunk sizes (else whole buffers)
 	ForceChunked  int  // permille: send request body with chunked transfer encoding
+	RewriteBodyRate int                       // permille: the request body is replaced by RewriteBody(body) when it returns non-nil
+	RewriteBody     func(body []byte) []byte  // (a proxy, a hand-written client, another implementation: any JSON may arrive)
 	DoubleClose   int  // permille: the request body is closed twice (legal: net/http's client does on some paths)
 	HeaderNoise   int  // permille: change header-name case / order, add unrelated headers
 	CutRequest    int
@@ -56,6 +58,7 @@ type Exchange struct {
 	ReqFaultAt     int
 	ReqWireSent    []byte // drop_element: the request before the element was removed
 	Rerouted       bool   // the request was moved to the design's alternative route
+	BodyRewritten  bool   // rewrite_body fired
 	DroppedLoc     string // drop_element: query | header | cookie | body
 	DroppedName    string
 	Parsed         bool // the server side could parse the request head
@@ -232,6 +235,15 @@ func (n *Net) do(req *http.Request, ex *Exchange) (*http.Response, error) {
 			ex.ReqWire = append([]byte(nil), nd...) // the request as it now stands is what every oracle judges
 			ex.DroppedLoc, ex.DroppedName = loc, name
 			ex.Faults = append(ex.Faults, "drop_element")
+		}
+	}
+	if ex.DroppedLoc == "" && n.Cfg.RewriteBody != nil && n.hit("rewrite-body", n.Cfg.RewriteBodyRate) {
+		if nd := n.rewriteBody(data); nd != nil {
+			data = nd
+			ex.ReqWireSent = ex.ReqWire
+			ex.ReqWire = append([]byte(nil), nd...)
+			ex.BodyRewritten = true
+			ex.Faults = append(ex.Faults, "rewrite_body")
 		}
 	}
 	switch {
@@ -504,6 +516,33 @@ func (n *Net) deliver(req *http.Request, r *recorder, ex *Exchange) (*http.Respo
 // request stays well-formed HTTP, it just lacks one thing the client sent (what
 // a hand-written client, a proxy that strips a header, or a stale cache of the
 // API description produces).
+// rewriteBody hands the request body to Cfg.RewriteBody and re-frames the request around what it returns.
+func (n *Net) rewriteBody(wire []byte) []byte {
+	req, err := http.ReadRequest(bufio.NewReader(bytes.NewReader(wire)))
+	if err != nil {
+		return nil
+	}
+	body, _ := io.ReadAll(req.Body)
+	if len(body) == 0 {
+		return nil
+	}
+	nb := n.Cfg.RewriteBody(body)
+	if nb == nil {
+		return nil
+	}
+	req.Body = io.NopCloser(bytes.NewReader(nb))
+	req.ContentLength = int64(len(nb))
+	req.TransferEncoding = nil
+	req.RequestURI = ""
+	req.URL.Host = req.Host
+	req.URL.Scheme = "http"
+	var out bytes.Buffer
+	if err := req.Write(&out); err != nil {
+		return nil
+	}
+	return out.Bytes()
+}
+
 func (n *Net) dropElement(wire []byte) ([]byte, string, string) {
 	req, err := http.ReadRequest(bufio.NewReader(bytes.NewReader(wire)))
 	if err != nil {
